@@ -578,12 +578,157 @@ CombGdef ==
 
 Comb == CombCursMark \cup CombCursLig \cup CombCursDist \cup CombCursKern \cup CombGdef
 
+\* ---- variation deltas (round 4): VariationIndex / Device tables behind value records and anchors ----
+\* one axis: R0 ramp 0..1, R1 tent peaking at 0.5, R2 the negative side; two axes: R0 ignores the
+\* second axis (peak 0), R1 is the corner (1, 1)
+VarD(o, i) == [k |-> "var", o |-> o, i |-> i]
+HintD(f)   == [k |-> "hint", fmt |-> f]
+Regions1 == << <<[s |-> 0, p |-> 16384, e |-> 16384]>>, <<[s |-> 0, p |-> 8192, e |-> 16384]>>,
+               <<[s |-> -16384, p |-> -16384, e |-> 0]>> >>
+Regions2 == << <<[s |-> 0, p |-> 16384, e |-> 16384], [s |-> 0, p |-> 0, e |-> 0]>>,
+               <<[s |-> 0, p |-> 16384, e |-> 16384], [s |-> 0, p |-> 16384, e |-> 16384]>>,
+               <<[s |-> -16384, p |-> -16384, e |-> 0], [s |-> 0, p |-> 8192, e |-> 16384]>> >>
+\* block 0: two 16-bit columns (rows 2 and 3 give ties at 0.5: +1.5 / -1.5); block 1: two 8-bit
+\* columns; block 2: one 16-bit and two 8-bit columns
+VarData == <<[regs |-> <<0, 1>>, wc |-> 2, sets |-> << <<40, -12>>, <<-7, 30>>, <<3, 0>>, <<-3, 0>>, <<0, 21>> >>],
+             [regs |-> <<2, 0>>, wc |-> 0, sets |-> << <<-20, 10>>, <<5, -6>> >>],
+             [regs |-> <<0, 1, 2>>, wc |-> 1, sets |-> << <<300, -5, 9>> >>]>>
+\* tuples: shaping without one, the default instance, and instances inside / at the end of regions
+Tuples == {<<"none", [has |-> FALSE, c |-> <<0>>]>>, <<"default", [has |-> TRUE, c |-> <<0>>]>>,
+           <<"quarter", [has |-> TRUE, c |-> <<4096>>]>>, <<"half", [has |-> TRUE, c |-> <<8192>>]>>,
+           <<"full", [has |-> TRUE, c |-> <<16384>>]>>, <<"neg", [has |-> TRUE, c |-> <<-8192>>]>>,
+           <<"2d", [has |-> TRUE, c |-> <<8192, 8192>>]>>, <<"2d-neg", [has |-> TRUE, c |-> <<-16384, 4096>>]>>}
+VarOf(tv, store) == [tuple |-> tv[2], store |-> store,
+                     regions |-> IF Len(tv[2].c) = 1 THEN Regions1 ELSE Regions2, data |-> VarData]
+ProgV(var, gv, tag, script, lookups, feat, m) ==
+  [gdef |-> GdefV(gv), adv |-> AdvOf(m), tag |-> tag, script |-> script, lookups |-> lookups,
+   feat |-> feat, kern |-> <<>>, gpos |-> TRUE, var |-> var]
+
+\* value records with device / variation-index offsets.  z: both placement defaults are zero
+VD(r, z, dev) == [xp |-> IF z THEN 0 ELSE V(r).xp, yp |-> IF z THEN 0 ELSE V(r).yp, xa |-> V(r).xa, ya |-> 0, dev |-> dev]
+DevsA == <<VarD(0, 0), VarD(0, 1), VarD(1, 0), HintD(1)>>
+DevsB == <<VarD(0, 2), VarD(0, 3), VarD(2, 0), DevNull>>       \* ties
+DevsC == <<VarD(5, 0), HintD(3), VarD(0, 9), HintD(2)>>        \* index names no delta set; hinting tables
+DevsE == <<VarD(1, 1), VarD(0, 4), VarD(0, 0), DevNull>>
+\* value formats: 0x75 xp xa + three devices, 0x44 xa + its device, 0x40 a device only, 0xF7 everything but
+\* yAdvance, 0x14 xAdvance and an xPlacement device, 0x33 placements + their devices, 0x30 two devices only
+VarVfs == {117, 68, 64, 247, 20, 51, 48}
+VarSingle ==
+  {T(<<"var-single", tv[1], c[1], c[2], c[3]>>,
+     ProgV(VarOf(tv, TRUE), "full", "kern", "latn",
+           <<Lk(1, 0, -1, c[2] = 2,
+                <<IF c[2] = 1 THEN [f |-> 1, cov |-> Cov(1, <<1, 4>>), vf |-> c[1], v |-> VD(1, c[3], DevsA)]
+                  ELSE [f |-> 2, cov |-> Cov(2, <<1, 2, 4>>), vf |-> c[1],
+                        vs |-> <<VD(1, c[3], DevsA), VD(2, c[3], DevsB), VD(3, c[3], DevsC)>>]>>)>>,
+           <<0>>, 1),
+     Items({1, 2, 4}), 2) :
+     tv \in Tuples, c \in {c \in VarVfs \X {1, 2} \X BOOLEAN : c[3] => c[1] \in {51, 247}}}
+\* the same value records in a font whose GDEF has no ItemVariationStore / that has no GDEF: no deltas
+VarSingleNoStore ==
+  {T(<<"var-single-nostore", tv[1], c[1], c[2]>>,
+     ProgV(VarOf(tv, c[2]), c[1], "kern", "latn",
+           <<Lk(1, 0, -1, FALSE, <<[f |-> 2, cov |-> Cov(1, <<1, 2, 4>>), vf |-> 117,
+                                    vs |-> <<VD(1, FALSE, DevsA), VD(2, FALSE, DevsB), VD(3, FALSE, DevsC)>>]>>)>>,
+           <<0>>, 1),
+     Items({1, 2, 4}), 2) :
+     tv \in {t \in Tuples : t[1] \in {"half", "none"}},
+     c \in {c \in {"full", "absent", "noclassdef"} \X BOOLEAN : c[2] => c[1] # "full"}}
+\* PairPos: format 1 resolves the offsets from the PairSet, format 2 from the subtable
+VarPair1Sub(vf1, vf2, z) ==
+  [f |-> 1, cov |-> Cov(1, <<1, 2>>), vf1 |-> vf1, vf2 |-> vf2,
+   sets |-> << <<[g2 |-> 2, v1 |-> VD(1, z, DevsA), v2 |-> VD(2, z, DevsE)], [g2 |-> 4, v1 |-> VD(3, z, DevsB), v2 |-> VD(4, z, DevsC)]>>,
+               <<[g2 |-> 1, v1 |-> VD(5, z, DevsE), v2 |-> VD(6, z, DevsA)], [g2 |-> 2, v1 |-> VD(7, z, DevsC), v2 |-> VD(8, z, DevsB)]>> >>]
+VarPair2Sub(vf1, vf2, z) ==
+  [f |-> 2, cov |-> Cov(2, <<1, 2, 3>>), vf1 |-> vf1, vf2 |-> vf2,
+   cd1 |-> Cd(1, <<0, 1, 2, 0, 0, 0, 0, 0>>), cd2 |-> Cd(2, <<0, 0, 1, 0, 2, 0, 0, 1>>),
+   recs |-> [c1 \in 1 .. 3 |-> [c2 \in 1 .. 3 |->
+               [v1 |-> VD(3 * c1 + c2, z, <<DevsA, DevsB, DevsE>>[c2]), v2 |-> VD(3 * c1 + c2 + 10, z, <<DevsE, DevsC, DevsA>>[c1])]]]]
+VarPair ==
+  {T(<<"var-pair", tv[1], f, vv[1], vv[2], vv[4]>>,
+     ProgV(VarOf(tv, TRUE), "full", "kern", "latn",
+           <<Lk(2, 8, -1, vv[4], <<IF f = 1 THEN VarPair1Sub(vv[1], vv[2], vv[3]) ELSE VarPair2Sub(vv[1], vv[2], vv[3])>>)>>, <<0>>, 1),
+     Items({1, 2, 4}), 3) :
+     tv \in {t \in Tuples : t[1] \in {"none", "half", "full", "2d", "neg"}}, f \in {1, 2},
+     vv \in {<<68, 0, FALSE, FALSE>>, <<69, 81, FALSE, FALSE>>, <<69, 81, FALSE, TRUE>>, <<64, 64, FALSE, FALSE>>,
+             <<20, 68, FALSE, FALSE>>, <<247, 51, TRUE, FALSE>>}}
+\* a context rule invoking a SinglePos lookup whose records vary; a varying Distance on an attached mark
+VarNested ==
+  {T(<<"var-ctx", tv[1], ty>>,
+     ProgV(VarOf(tv, TRUE), "full", "kern", "latn",
+           <<Lk(ty, 0, -1, FALSE,
+                <<IF ty = 7 THEN [f |-> 3, covs |-> <<Cov(1, <<1, 2>>), Cov(1, <<1, 2, 4>>)>>, recs |-> << <<1, 1>>, <<0, 1>> >>]
+                  ELSE [f |-> 3, bt |-> <<Cov(1, <<1, 2>>)>>, inp |-> <<Cov(1, <<1, 2, 4>>)>>, la |-> <<>>, recs |-> << <<0, 1>> >>]>>),
+             Lk(1, 0, -1, FALSE, <<[f |-> 2, cov |-> Cov(1, <<1, 2, 4>>), vf |-> 117,
+                                    vs |-> <<VD(1, FALSE, DevsA), VD(2, FALSE, DevsB), VD(3, FALSE, DevsE)>>]>>)>>,
+           <<0>>, 1),
+     Items({1, 2, 4}), 3) : tv \in {t \in Tuples : t[1] \in {"none", "half", "2d"}}, ty \in {7, 8}}
+  \cup
+  {T(<<"var-mark-displaced", tv[1], ord>>,
+     ProgV(VarOf(tv, TRUE), "full", "mark", "latn",
+           LET mb == Lk(4, 0, -1, FALSE, <<MarkBaseSub(1, 1)>>)
+               sp == Lk(1, 0, -1, FALSE, <<[f |-> 1, cov |-> Cov(1, <<2, 4>>), vf |-> 55, v |-> VD(3, FALSE, DevsA)]>>) IN
+           IF ord = 0 THEN <<mb, sp>> ELSE <<sp, mb>>,
+           <<0, 1>>, 0),
+     Items({1, 2, 4, 5}), 3) : tv \in {t \in Tuples : t[1] \in {"none", "half", "neg"}}, ord \in {0, 1}}
+\* anchors of format 3 whose x / y offsets point at VariationIndex or hinting Device tables
+AnV(k, dev) == [f |-> 3, x |-> 10 + 37 * k, y |-> 5 + 23 * k - 3 * k * k, dev |-> dev]
+VarMarkBaseSub ==
+  [mcov |-> Cov(1, <<4, 5>>), bcov |-> Cov(1, <<1, 2, 3>>), nc |-> 2,
+   marks |-> <<[c |-> 0, a |-> AnV(1, <<VarD(0, 0), VarD(0, 1)>>)], [c |-> 1, a |-> AnV(2, <<HintD(1), DevNull>>)]>>,
+   bases |-> << <<AnV(3, <<VarD(1, 0), VarD(2, 0)>>), An(1, 4)>>, <<AnV(5, <<DevNull, VarD(0, 3)>>), Null>>,
+                <<AnV(6, <<HintD(2), HintD(3)>>), AnV(7, <<VarD(0, 4), VarD(7, 7)>>)>> >>]
+VarCursSub ==
+  [cov |-> Cov(1, <<1, 2, 3>>),
+   recs |-> <<[en |-> [AnV(1, <<DevNull, VarD(0, 0)>>) EXCEPT !.x = 0], ex |-> AnV(2, <<HintD(1), VarD(0, 1)>>)],
+              [en |-> [AnV(3, <<HintD(2), VarD(1, 1)>>) EXCEPT !.x = 0], ex |-> AnV(4, <<DevNull, VarD(0, 4)>>)],
+              [en |-> Null, ex |-> AnV(6, <<DevNull, VarD(2, 0)>>)]>>]
+VarAnchor ==
+  {T(<<"var-anchor-markbase", tv[1], m>>,
+     ProgV(VarOf(tv, TRUE), "full", "mark", "latn", <<Lk(4, 0, -1, FALSE, <<VarMarkBaseSub>>)>>, <<0>>, m),
+     Items({1, 2, 3, 4, 5}), 3) : tv \in {t \in Tuples : t[1] \in {"none", "default", "half", "full", "2d"}}, m \in {0, 1}}
+  \cup
+  {T(<<"var-anchor-curs", tv[1], fl>>,
+     ProgV(VarOf(tv, TRUE), "full", "curs", "arab", <<Lk(3, fl, -1, FALSE, <<VarCursSub>>)>>, <<0>>, 0),
+     Items({1, 2, 3}), 3) : tv \in {t \in Tuples : t[1] \in {"none", "half", "neg"}}, fl \in {8, 9}}
+Var == VarSingle \cup VarSingleNoStore \cup VarPair \cup VarNested \cup VarAnchor
+
+\* ---- lookup type 9 around the types and multi-subtable lookups rounds 1-3 left unwrapped ---------
+ExtAll ==
+  {T(<<"ext", "pair2", cf>>, Prog("kern", "latn", <<Lk(2, 8, -1, TRUE, <<Pair2Sub(cf, 5, 4)>>)>>, <<0>>, <<>>, TRUE, 1),
+     Items({1, 2, 3, 4}), 3) : cf \in {1, 2}}
+  \cup {T(<<"ext", "pair-multi">>, [PairMulti_P EXCEPT !.lookups[1].ext = TRUE], Items({1, 2, 3}), 3) :
+          PairMulti_P \in {t.prog : t \in PairMulti}}
+  \cup {T(<<"ext", "single-multi">>, [P EXCEPT !.lookups[1].ext = TRUE], Items({1, 2, 4}), 3) : P \in {t.prog : t \in SingleMulti}}
+  \cup {T(<<"ext", "markbase-multi", m>>,
+          [(CHOOSE t \in MarkBaseMulti : t.id[2] = m).prog EXCEPT !.lookups[1].ext = TRUE], Items({1, 2, 7, 4, 5}), 3) : m \in {0, 1}}
+  \cup {T(<<"ext", "marklig", m>>,
+          Prog("mark", "latn", <<Lk(5, 0, -1, TRUE, <<MarkLigSub(2, 3)>>)>>, <<0>>, <<>>, TRUE, m),
+          {It(3), It(1), ItC(4, 0), ItC(4, 1), ItC(4, 2), ItC(5, 0), ItC(5, 1)}, 3) : m \in {0, 1}}
+  \cup {T(<<"ext", "markmark", fl[1]>>,
+          Prog("mkmk", "latn",
+               <<Lk(6, fl[1], fl[2], TRUE,
+                    <<IF fl[1] = 0 THEN MarkMarkSub(1, 3, <<4, 5>>, <<4, 5>>) ELSE MarkMarkSub(2, 2, <<4>>, <<4>>)>>)>>,
+               <<0>>, <<>>, TRUE, 1),
+          Items(IF fl[1] = 0 THEN {1, 4, 5, 6} ELSE {1, 4, 5}), 4) : fl \in {<<0, -1>>, <<256, -1>>, <<16, 0>>}}
+  \cup {T(<<"ext", "curs-marks", shape, fl>>,
+          Prog("curs", "arab", <<Lk(3, fl, -1, TRUE, <<CursSub(2, 3, shape, TRUE)>>)>>, <<0>>, <<>>, TRUE, 1),
+          Items({1, 2, 3, 4}), 3) : shape \in {"x0", "fity"}, fl \in {8, 9}}
+  \cup {T(<<"ext", "ctx-nested", ty, f>>,
+          \* the nested lookups are extension lookups too
+          LET P == Prog("kern", "latn", <<Lk(ty, 0, -1, TRUE, CtxSubs(ty, f))>> \o NestedLookups(0), <<0>>, <<>>, TRUE, 1) IN
+          [P EXCEPT !.lookups = [k \in 1 .. Len(@) |-> [@[k] EXCEPT !.ext = TRUE]]],
+          Items({1, 2, 4, 6}), 3) : ty \in {7, 8}, f \in {1, 2, 3}}
+  \cup {TW(<<"ext", "comb", fl>>,
+           LET P == CombProg(<<CombCurs("fity", fl, TRUE), CombMarkBase(TRUE), CombMkMk>>, <<>>, 0) IN
+           [P EXCEPT !.lookups = [k \in 1 .. Len(@) |-> [@[k] EXCEPT !.ext = TRUE]]],
+           DecoStrs({<<1, 2>>, <<1, 2, 1>>}, DecoQ)) : fl \in {8, 9}}
+
 Templates ==
   SingleVf \cup SingleFlag \cup Single2 \cup SingleMulti \cup Pair1Vf \cup Pair1Long \cup Pair2 \cup PairMulti
   \cup Curs \cup MarkBase \cup MarkBaseMulti \cup MarkLig \cup MarkMark \cup Ctx \cup Multi
   \cup KernFallback \cup KernWithGpos \cup KernWithDist
   \cup SingleFlagG \cup Pair1LongG \cup MarkBaseG \cup MarkLigG \cup MarkMarkG \cup CtxG \cup MultiG \cup KernWithGposG
-  \cup Comb \cup CtxMarkStack
+  \cup Comb \cup CtxMarkStack \cup Var \cup ExtAll
 
 \* thorough: one more glyph per string
 LenOf(t) == IF Quick THEN t.n ELSE t.n + 1
@@ -616,7 +761,27 @@ MkMkFragment(prog) ==
                    Sees(FlagOf(L), prog.gdef, g) => Covered(L.subs[m].bcov, g)
 GdefWF(gdef) == /\ gdef.tab \in {"full", "noclassdef", "absent"}
                 /\ Len(gdef.cls) = Len(gdef.att)
-ProgWF(prog) == MarkCovOK(prog) /\ MkMkFragment(prog) /\ KernWF(prog.kern) /\ GdefWF(prog.gdef)
+\* variation data: as many coordinates as every region has axes, regions ordered start <= peak <= end on
+\* one side of 0, per-axis scalars of the instance are exact multiples of 1/4, rows match their columns
+VarWF(prog) ==
+  "var" \in DOMAIN prog =>
+    LET var == prog.var  c == var.tuple.c IN
+    /\ Len(c) \in 1 .. 2
+    /\ \A r \in 1 .. Len(var.regions) :
+         /\ Len(var.regions[r]) = Len(c)
+         /\ \A a \in 1 .. Len(c) :
+              LET x == var.regions[r][a] IN
+              /\ x.s <= x.p /\ x.p <= x.e /\ (x.s >= 0 \/ x.e <= 0)
+              /\ (x.p # 0 /\ x.s <= c[a] /\ c[a] < x.p) => ((c[a] - x.s) * 4) % (x.p - x.s) = 0
+              /\ (x.p # 0 /\ x.p < c[a] /\ c[a] <= x.e) => ((x.e - c[a]) * 4) % (x.e - x.p) = 0
+    /\ \A b \in 1 .. Len(var.data) :
+         /\ var.data[b].wc \in 0 .. Len(var.data[b].regs)
+         /\ \A k \in 1 .. Len(var.data[b].regs) : var.data[b].regs[k] + 1 \in 1 .. Len(var.regions)
+         /\ \A q \in 1 .. Len(var.data[b].sets) :
+              /\ Len(var.data[b].sets[q]) = Len(var.data[b].regs)
+              /\ \A k \in 1 .. Len(var.data[b].regs) :
+                   k > var.data[b].wc => var.data[b].sets[q][k] \in -128 .. 127
+ProgWF(prog) == MarkCovOK(prog) /\ MkMkFragment(prog) /\ KernWF(prog.kern) /\ GdefWF(prog.gdef) /\ VarWF(prog)
 
 ASSUME \A t \in Templates : ProgWF(t.prog)
 ASSUME \A t \in Templates : PrintT(<<"TPL", ToJson([id |-> t.id, prog |-> t.prog])>>)
@@ -636,8 +801,15 @@ KernDesignOK ==
   UsesKernTable(tpl.prog) =>
     \A D \in DevsFor(tpl.prog) : KernStreamsSeparate(D, tpl.prog.kern, [j \in 1 .. Len(w) |-> w[j].g])
 
+\* DefaultInstanceIsStatic: shaping the default instance of a variable font (all coordinates 0), or a font
+\* whose GDEF has no ItemVariationStore, gives what shaping without a tuple gives
+DefaultInstanceIsStatic(outs) ==
+  ("var" \in DOMAIN tpl.prog /\ (~tpl.prog.var.store \/ \A a \in 1 .. Len(tpl.prog.var.tuple.c) : tpl.prog.var.tuple.c[a] = 0)) =>
+    outs = Outcomes([tpl.prog EXCEPT !.var.tuple.has = FALSE], w)
+
 DesignOKOn(outs) ==
-  \A o \in outs :
+  /\ DefaultInstanceIsStatic(outs)
+  /\ \A o \in outs :
     /\ Modelled(o)
     /\ CoveredMarkAttached(o) /\ GlyphsKept(w, o) /\ AttachInRun(o) /\ PosWF(o)
     /\ MarkRelativeToBase(o, tpl.prog.adv)
@@ -687,11 +859,33 @@ CombTags(o) ==
   \cup tag(OnChain # {} /\ UsesKernTable(P), "comb-kern-table-with-chain-and-marks")
   \cup tag(OnChain # {} /\ P.gdef.tab = "absent", "comb-without-gdef")
 
+\* ... of the variation deltas
+VarTags(dflt) ==
+  LET P == tpl.prog
+      tag(c, t) == IF c THEN {t} ELSE {} IN
+  IF "var" \notin DOMAIN P THEN {}
+  ELSE LET static == Proj(Shape(DevDefault, [P EXCEPT !.var.tuple.has = FALSE], w))
+           up == Proj(Shape([DevDefault EXCEPT !.varTie = "up"], P, w))
+           moved(f(_)) == \E j \in 1 .. Len(w) : f(dflt[j]) # f(static[j])
+           Kof(x) == x.k
+           Pof(x) == <<x.pl.ax, x.pl.ay, x.pl.bx, x.pl.by>> IN
+       tag(~VarOn(P), "var-shaped-without-tuple")
+       \cup tag(VarOn(P) /\ ~VarCtx(DevDefault, P).on, "var-tuple-without-store")
+       \cup tag(moved(Kof), "var-advance-delta-applied")
+       \cup tag(\E j \in 1 .. Len(w) : dflt[j].pl.t \in {"D", "N"} /\ static[j].pl.t \in {"D", "N"} /\ Pof(dflt[j]) # Pof(static[j]),
+               "var-placement-delta-applied")
+       \cup tag(\E j \in 1 .. Len(w) : dflt[j].pl.t = "N" /\ static[j].pl.t = "D", "var-delta-cancels-placement")
+       \cup tag(\E j \in 1 .. Len(w) : dflt[j].pl.t = "D" /\ static[j].pl.t = "N", "var-placement-from-delta-alone")
+       \cup tag(\E j \in 1 .. Len(w) : dflt[j].pl.t = "M" /\ Pof(dflt[j]) # Pof(static[j]), "var-mark-anchor-delta-applied")
+       \cup tag(\E j \in 1 .. Len(w) : dflt[j].pl.t = "C" /\ Pof(dflt[j]) # Pof(static[j]), "var-cursive-anchor-delta-applied")
+       \cup tag(up # dflt, "var-reading-round-tie-matters")
+       \cup tag(VarOn(P) /\ dflt = static /\ \E j \in 1 .. Len(w) : dflt[j].k # 0 \/ dflt[j].pl.t # "N", "var-instance-where-no-delta-applies")
+
 VacTags(outs) ==
   LET P == tpl.prog  g == P.gdef
       dflt == Proj(Shape(DevDefault, P, w))
       tag(c, t) == IF c THEN {t} ELSE {} IN
-  CombTags(dflt) \cup
+  CombTags(dflt) \cup VarTags(dflt) \cup
   tag(P.gpos /\ g.tab = "absent", "gdef-absent")
   \cup tag(P.gpos /\ g.tab = "noclassdef", "gdef-noclassdef")
   \cup tag(\E j \in 1 .. Len(w) : dflt[j].pl.t = "M" /\ ~IsMarkGlyph(g, w[j].g), "attached-mark-not-gdef-mark")
@@ -706,8 +900,16 @@ VacTags(outs) ==
   \cup tag(KernPairHit(KernAcrossStream) /\ \E o \in outs : \E j \in 1 .. Len(w) : o[j].pl # dflt[j].pl,
            "reading-kern-cross-shift-matters")
 
+\* results that a known deviation of allsorts would give (naming of mismatches only)
+AltsOf(outs) ==
+  IF ~(tpl.prog.gpos /\ VarOn(tpl.prog)) THEN <<>>
+  ELSE LET ks == {k \in 1 .. Len(KnownKinds) : KnownAlt(tpl.prog, w, k) # outs} IN
+       [q \in 1 .. Cardinality(ks) |->
+          LET k == CHOOSE k \in ks : Cardinality({j \in ks : j <= k}) = q IN
+          [key |-> KnownKinds[k][1], infos |-> SetToSeq(KnownAlt(tpl.prog, w, k) \ outs)]]
+
 EmitOn(outs) ==
-  PrintT(<<"CASE", ToJson([id |-> tpl.id, in |-> w, vac |-> SetToSeq(VacTags(outs)),
+  PrintT(<<"CASE", ToJson([id |-> tpl.id, in |-> w, vac |-> SetToSeq(VacTags(outs)), alt |-> AltsOf(outs),
                            exp |-> SetToSeq({[infos |-> o,
                                               ltr |-> Canon(o, tpl.prog.adv, "ltr"),
                                               rtl |-> Canon(o, tpl.prog.adv, "rtl")] : o \in outs})])>>)
